@@ -172,6 +172,25 @@ theorem C12_open_todo (s : State) (hid : Nat) (d : DocSpec) (caching : Bool) (se
       hd.todo = selPages d.pages.length sel :=
   ⟨openHandle d caching sel, alookup_aset_self _ _ _, rfl, rfl⟩
 
+/-- Interleaving: in ANY history — other iterators over other (or the same) documents, whole
+extractions, CMap parsing in between — the outputs of the operations addressed to iterator `hid`
+are exactly the outputs of those operations run alone in a fresh process. -/
+theorem C12_interleaving (hid : Nat) (h : List Op) :
+    outputsOf W hid (init W) h = outputs W (init W) (h.filter (mentions hid)) :=
+  interleaving_aux W hid h _ _ (StateOk.init W) (StateOk.init W) rfl
+
+/-! ## Shared tables only grow -/
+
+/-- Continuing a history never removes or alters an entry of the process-wide caches and never
+touches the encoding tables (together with `tables_inv`: the tables only grow by entries that are
+functions of their key). -/
+theorem tables_only_grow (h h' : List Op) :
+    (run W (init W) (h ++ h')).tables.enc = (run W (init W) h).tables.enc ∧
+    (∀ e, e ∈ (run W (init W) h).tables.cmaps → e ∈ (run W (init W) (h ++ h')).tables.cmaps) ∧
+    (∀ e, e ∈ (run W (init W) h).tables.umaps → e ∈ (run W (init W) (h ++ h')).tables.umaps) := by
+  rw [run_append]
+  exact run_le W h' _
+
 /-! ## Copy discipline of shared CMaps -/
 
 /-- Building a private CMap on top of a shared one (`usecmap`) and extending the private one leaves
@@ -182,5 +201,88 @@ theorem C12_cmap_copy (h : List Op) (name : Nat) (ext : List (Nat × Nat)) :
   have h1 := getCMap_spec W (run W (init W) h).tables name hs.1
   have h2 := getCMap_spec W _ name h1.2
   exact ⟨_, by simp only [step]; rw [h2.1]⟩
+
+/-! ## Why the discipline matters: proved counter-examples for two broken disciplines -/
+
+/-- `get_encoding` WITHOUT the copy: the differences are written into the shared table. -/
+def getEncodingNoCopy (enc : List (List (Nat × Nat))) (base : Nat) (diffs : List (Nat × Nat)) :
+    List (Nat × Nat) × List (List (Nat × Nat)) :=
+  (getEncoding enc base diffs, enc.set base (getEncoding enc base diffs))
+
+/-- Without the copy a later font with the same base encoding and no differences inherits the
+differences of an earlier font: its table is not the fresh one (history dependence). -/
+theorem nocopy_cex : ∃ (enc : List (List (Nat × Nat))) (base : Nat) (diffs : List (Nat × Nat)),
+    getEncoding (getEncodingNoCopy enc base diffs).2 base [] ≠ getEncoding enc base [] :=
+  ⟨[[(65, 65)]], 0, [(65, 8364)], by decide⟩
+
+/-- A memo table is only sound for the `fresh` function it was filled under: answering document 2
+(`fresh₂`) from a cache filled by document 1 (`fresh₁`) under the same key returns document 1's
+value.  This is what a font cache keyed by resource name, or a resource manager reused across
+documents, would do. -/
+theorem shared_cache_cex {α : Type} (fresh₁ fresh₂ : Nat → Option α) (k : Nat) (v : α)
+    (h1 : fresh₁ k = some v) : (memo true fresh₂ (memo true fresh₁ [] k).2 k).1 = some v := by
+  simp [memo, alookup, h1]
+
+/-! ## Non-vacuity: a concrete world and two colliding documents
+
+Both documents use object numbers 1–5 and 10–12; font object 3 is a simple font with
+`/Differences` in `docA` and a composite font with a predefined CMap in `docB`; `docB` keeps its
+font inside object stream 9.  The theorems above apply to them; the examples evaluate the state
+machine on an interleaved history and show that the results are non-trivial and differ between
+the documents. -/
+
+def W0 : World :=
+  { encInit := [[(65, 65), (66, 66)], [(65, 97), (66, 98)], [], []],
+    loadCMap := fun k => if k = 1 then some [(65, 5), (66, 6)] else none,
+    loadUMap := fun k => if k = 1 then some [(5, 12354)] else none }
+
+def simpleFont : FontSpec :=
+  { kind := 0, base := 1, diffs := [(66, 8364)], hasToUnicode := true, tounicode := [(67, [102, 105])],
+    cmap := 0, umap := 0, usecmap := 1, reads := [4] }
+
+def cjkFont : FontSpec :=
+  { kind := 2, base := 0, diffs := [], hasToUnicode := false, tounicode := [], cmap := 1, umap := 1,
+    usecmap := 0, reads := [4] }
+
+def docA : DocSpec :=
+  { objs := [(1, .direct 101), (2, .direct 102), (3, .direct 103), (4, .direct 104), (10, .direct 110),
+             (11, .direct 111), (12, .direct 112)],
+    fontSpecs := [(3, simpleFont)], openReads := [1],
+    pages := [⟨[2, 10], [.byId 3], [11], [(0, [65, 66, 67, 68])]⟩,
+              ⟨[12], [.byId 3, .direct simpleFont], [11], [(1, [66]), (0, [65])]⟩] }
+
+def docB : DocSpec :=
+  { objs := [(1, .direct 201), (2, .direct 202), (3, .inStream 9 203), (4, .inStream 9 204), (9, .direct 209),
+             (10, .direct 210), (11, .direct 211)],
+    fontSpecs := [(3, cjkFont)], openReads := [1],
+    pages := [⟨[2, 10], [.byId 3], [11], [(0, [65, 66, 67])]⟩] }
+
+/-- the interleaved history used below -/
+def hist0 : List Op :=
+  [.open 1 docA true [], .open 2 docB true [], .next 1, .next 2, .extract docB false [], .parseCMap 1 [(65, 7)],
+   .next 1, .next 2, .next 1, .extract docA true [1], .close 1]
+
+/-- docA page 0 decodes through MacRoman + Differences + ToUnicode: a, €, "fi", (cid:68) -/
+example : (pagesSpec W0 docA []).map (·.glyphs) =
+    [[[[97], [8364], [102, 105], [1114180]]], [[[8364]], [[97]]]] := by decide
+
+/-- docB page 0 decodes through the predefined CMap and the unicode map: あ, (cid:6); code 67 has no glyph -/
+example : (pagesSpec W0 docB []).map (·.glyphs) = [[[[12354], [1114118]]]] := by decide
+
+/-- the interleaved history yields, page for page, the fresh pages of each document -/
+example : outputs W0 (init W0) hist0 =
+    [.ok, .ok, .page (freshPage W0 docA docA.pages[0]), .page (freshPage W0 docB docB.pages[0]),
+     .pages (pagesSpec W0 docB []), .cmap [(65, 7), (66, 6)] (some [(65, 5), (66, 6)]),
+     .page (freshPage W0 docA docA.pages[1]), .done, .done, .pages (pagesSpec W0 docA [1]), .ok] := by
+  decide
+
+/-- the caches really are used in that history: after it, the CMap caches hold CMap 1 and unicode
+map 1, and iterator 2 (docB, caching on) holds objects 1-4, 9-11, the parsed object stream 9 and font 3 -/
+example : ((run W0 (init W0) hist0).tables.cmaps.map (·.1), (run W0 (init W0) hist0).tables.umaps.map (·.1)) =
+    ([1], [1]) := by decide
+
+example : ((alookup 2 (run W0 (init W0) hist0).handles).map
+    (fun h => (h.c.objs.map (·.1), h.c.pobjs.map (·.1), h.c.fonts.map (·.1)))) =
+    some ([11, 4, 3, 9, 10, 2, 1], [9], [3]) := by decide
 
 end PdfVerif.Props.C12
